@@ -209,8 +209,8 @@ def main(tier, seed):
         batches.append({"kind": "sweep", "pair": seed, "lo": lo, "hi": lo + step, "seed": seed * 31337 + lo, "typed": not q})
     m = 25
     for i in range(m):
-        batches.append({"kind": "pairs", "i": i, "m": m, "nrand": 20 if q else 3000, "seed": seed * 31337 + 100 + i})
-    for i in range(2 if q else 16):
+        batches.append({"kind": "pairs", "i": i, "m": m, "nrand": 20 if q else 12000, "seed": seed * 31337 + 100 + i})
+    for i in range(2 if q else 48):
         batches.append({"kind": "generic", "n": 3000 if q else 20000, "seed": seed * 31337 + 200 + i})
     for i in range(3 if q else 16):
         batches.append({"real": [{"kind": "app", "seed": seed * 389 + i * 23 + j, "judge": "decoration"} for j in range(1 if q else 4)]})
